@@ -67,7 +67,7 @@ def build_finite(spec, SI):
     if m == 'bflat':
         Bf = D['Bflat'] if b['cplx'] else [x.real.copy() for x in D['Bflat']]
         ci = sites[0].leg.chinfo
-        legL = npc.LegCharge.from_qflat(ci, D['qb0'])
+        legL = npc.LegCharge.from_qflat(ci, D['qb0']).bunch()[1]
         return MPS.from_Bflat(sites, Bf, SVs=D['svs'], bc='finite', permute=b['permute'], form=b['form'],
                               legL=legL, unit_cell_width=L)
     if m == 'circuit':
@@ -113,7 +113,7 @@ def build_infinite(spec, SI):
     if b['method'] == 'bflat':
         Bf = D['Bflat'] if b['cplx'] else [x.real.copy() for x in D['Bflat']]
         ci = sites[0].leg.chinfo
-        legL = npc.LegCharge.from_qflat(ci, D['qb0'])
+        legL = npc.LegCharge.from_qflat(ci, D['qb0']).bunch()[1]
         psi = MPS.from_Bflat(sites, Bf, SVs=None, bc='infinite', permute=b['permute'], form=b['form'], legL=legL,
                              unit_cell_width=L)
         return psi
